@@ -23,8 +23,12 @@ def pad4 (y : Nat) : Str := [digitChar (y / 1000 % 10), digitChar (y / 100 % 10)
 def pad2 (m : Nat) : Str := [digitChar (m / 10 % 10), digitChar (m % 10)]
 def pad1 (s : Nat) : Str := [digitChar (s % 10)]
 
-/-- decimal digits of a natural number, most significant first (`str(n)`) -/
-def natDigits (n : Nat) : Str := (Nat.toDigits 10 n)
+/-- decimal digits of a natural number, most significant first (`str(n)`), by structural recursion on fuel -/
+def digitsFuel : Nat → Nat → Str → Str
+  | 0, n, acc => digitChar (n % 10) :: acc
+  | fuel + 1, n, acc => if n < 10 then digitChar n :: acc else digitsFuel fuel (n / 10) (digitChar (n % 10) :: acc)
+
+def natDigits (n : Nat) : Str := digitsFuel n n []
 
 /-- `f"{n:0{w}g}"` for `w ∈ {1, 2, 4}` on the supported range -/
 def fmtG (w : Nat) (n : Int) : Option Str :=
@@ -35,12 +39,15 @@ def fmtG (w : Nat) (n : Int) : Option Str :=
     | 1 => if n < 10 then some (pad1 n.toNat) else none
     | _ => none
 
+/-- one step of reading a digit string -/
+def parseStep (acc : Option Nat) (c : Char) : Option Nat :=
+  match acc with
+  | none => none
+  | some a => if isDigit c then some (a * 10 + digitVal c) else none
+
 /-- non-empty digit string → number (`int(s)` on the strings the library itself produces) -/
 def parseNat (s : Str) : Option Nat :=
-  if s.isEmpty then none
-  else s.foldl (fun acc c => match acc with
-    | none => none
-    | some a => if isDigit c then some (a * 10 + digitVal c) else none) (some 0)
+  if s.isEmpty then none else s.foldl parseStep (some 0)
 
 /-- `int(s)` with an optional sign -/
 def parseInt (s : Str) : Option Int :=
